@@ -261,7 +261,8 @@ def check_rails(m):
             continue
         widths = sorted({ulen(x) for x in rails})
         if any(('\n' in x or '\r' in x) for x in rails):
-            fails.append(('rail-linebreak-in-rail', f'rule {r.name}: a rail contains a line break, the printed block has '
+            src = 'param' if any(isinstance(x, str) and '\n' in x for x in list(r.params or ()) + list((r.kwparams or {}).values())) else 'constant'
+            fails.append((f'rail-linebreak-from-{src}', f'rule {r.name}: a rail contains a line break, the printed block has '
                           f'lines of different width: {[x for x in rails if chr(10) in x or chr(13) in x][:1]!r}'))
         elif len(widths) > 1:
             fails.append(('rail-width', f'rule {r.name}: rails of widths {widths}: {rails!r}'[:300]))
@@ -348,7 +349,7 @@ def atom_battery(t):
     b = ['', t, t + t, t + ' ' + t, ' ' + t + ' ', t + 'a', 'a' + t, t[:-1], t[1:], t + '\n', 'a', 'a a', 'aa']
     b += list(ALPHA)
     b += [x + t for x in ALPHA] + [t + x for x in ALPHA]
-    b += [x + y for x in ('a', '\\', '\n', '/', "'") for y in ALPHA]
+    b += [x + y for x in ('a', '\\') for y in ALPHA]
     return list(dict.fromkeys(b))
 
 
@@ -417,15 +418,16 @@ RULE_CASES = [
     ('param-brackets', "start[A] = 'a' $ ;"),
     ('param-colons', "start::A = 'a' $ ;"),
     ('param-path', "start[x::A] = 'a' $ ;"),
-    ('params-mixed', "start(A, 'b c', 1, 2.5, 0x1F, true, None, b='x y', c=None, d=1, e=-2.5, f=False) = 'a' $ ;"),
+    ('params-mixed', "start(A, 'b c', 1, 2.5, true, None, b='x y', c=None, d=1, e=-2.5, f=False) = 'a' $ ;"),
+    ('params-numbers', "start(1, -2, 2.5, True) = 'a' $ ;"),
     ('kwparams-only', "start(k=1, j='v') = 'a' $ ;"),
-    ('param-quote', "start('it''s') = 'a' $ ;"),
+    ('param-quote', "start('it\\x27s') = 'a' $ ;"),
     ('param-dq', "start(\"q'q\") = 'a' $ ;"),
     ('define-colon', "start: 'a' $ ;"),
     ('define-bnf', "start ::= 'a' $ ;"),
     ('define-walrus', "start := 'a' $ ;"),
     ('endrule-blank', "start = 'a' b $\n\nb = 'b'\n"),
-    ('endrule-dedent', "start =\n    'a' b $\nb =\n    'b'\n"),
+    ('endrule-dedent', "start =\n    'a' b\nb =\n    'b'\n"),
     ('deco-name', "start = n $ ;\n@name\nn = /[a-z]+/ ;"),
     ('deco-isname', "start = n $ ;\n@isname\nn = /[a-z]+/ ;"),
     ('deco-nomemo', "start = n $ ;\n@nomemo\nn = /[a-z]+/ ;"),
@@ -476,7 +478,7 @@ RULE_CASES = [
                        "@@namechars :: '-'\n@@ignorecase :: True\n@@nameguard :: True\n@@left_recursion :: True\n"
                        "@@parseinfo :: True\n@@keyword :: b\nstart = e $ ;\ne = e '-' n | n ;\n@name\nn = /[a-z]+/ ;"),
     ('comment-in-grammar', "(* c *)\nstart = 'a' (* d *) 'b' # e\n $ ;"),
-    ('tokens-esc', "start = '\\n' | '\\t' | '\\\\' | '\\x41' | 'a\\'b' | \"a\\\"b\" $ ;"),
+    ('tokens-esc', "start = '\\n' | '\\t' | '\\\\' | '\\x41' | 'a\\x27b' | \"a\\x22b\" $ ;"),
     ('pattern-ml', "start = /(?x)\n a   # x\n b/ $ ;"),
     ('pattern-spaces', "start = / a/ | /a / $ ;"),
     ('pattern-nl', "start = /a\nb/ $ ;"),
@@ -519,89 +521,70 @@ def file_cases():
     return out
 
 
-# atoms: spellings (text route) and atom texts (json route)
-def _tok_json(t):
-    return {'__class__': 'Token', 'token': t}
+# atoms: every quoting form of the grammar syntax, the text spelled raw and spelled with escapes
+ESC = {'\\': '\\\\', '\n': '\\n', "'": '\\x27', '"': '\\x22', '`': '\\x60', '/': '\\x2f'}
 
 
-def _grammar_json(exp, *, directives=None, keywords=None, rules=None, params=None, kwparams=None):
-    start = {'__class__': 'Rule', 'name': 'start', 'params': params or [], 'kwparams': kwparams or {}, 'decorators': [],
-             'exp': {'__class__': 'Sequence', 'sequence': [exp, {'__class__': 'EOF'}]}}
-    return {'__class__': 'Grammar', 'name': 'T', 'directives': directives or {}, 'keywords': keywords or [],
-            'rules': [start] + (rules or [])}
+def esc(s):
+    return ''.join(ESC.get(c, c) for c in s)
 
 
-NAME_RULE = {'__class__': 'Rule', 'name': 'n', 'params': [], 'kwparams': {}, 'decorators': ['name'], 'is_name': True,
-             'exp': {'__class__': 'Pattern', 'pattern': r'[^\s]+'}}
+# (kind, form, template, spelling): main forms run to the full length bound, minor forms one shorter
 TEXT_FORMS_MAIN = [
-    ('token', 'sq', "start = '{s}' $ ;"), ('token', 'dq', 'start = "{s}" $ ;'),
-    ('pattern', 'slashes', 'start = /{s}/ $ ;'), ('pattern', 'qdq', 'start = ?"{s}" $ ;'),
-    ('constant', 'bq', "start = 'a' `{s}` $ ;"),
+    ('token', 'sq', "start = '{s}' $ ;", 'raw'), ('token', 'dq', 'start = "{s}" $ ;', 'raw'),
+    ('token', 'sq-esc', "start = '{s}' $ ;", 'esc'),
+    ('pattern', 'slashes', 'start = /{s}/ $ ;', 'raw'), ('pattern', 'qdq', 'start = ?"{s}" $ ;', 'raw'),
+    ('constant', 'bq', "start = 'a' `{s}` $ ;", 'raw'),
 ]
 TEXT_FORMS_MINOR = [
-    ('token', 'raw', "start = r'{s}' $ ;"), ('token', 'ml', "start = '''{s}''' $ ;"), ('token', 'mldq', 'start = """{s}""" $ ;'),
-    ('pattern', 'qsq', "start = ?'{s}' $ ;"), ('pattern', 'old', 'start = ?/{s}/? $ ;'),
-    ('constant', 'bq3', "start = 'a' ```{s}``` $ ;"), ('alert', 'bq', "start = 'a' ^`{s}` $ ;"),
-    ('keyword', 'sq', "@@keyword :: '{s}'\nstart = n $ ;\n@name\nn = /[^\\s]+/ ;"),
-    ('keyword', 'word', "@@keyword :: {s}\nstart = n $ ;\n@name\nn = /[^\\s]+/ ;"),
-    ('namechars', 'sq', "@@namechars :: '{s}'\nstart = 'a' /.*/ $ ;"),
-    ('whitespace', 'slashes', "@@whitespace :: /{s}/\nstart = 'a' 'a' $ ;"),
-    ('whitespace', 'sq', "@@whitespace :: '{s}'\nstart = 'a' 'a' $ ;"),
-    ('whitespace', 'qdq', "@@whitespace :: ?\"{s}\"\nstart = 'a' 'a' $ ;"),
-    ('comments', 'slashes', "@@comments :: /{s}/\nstart = 'a' 'a' $ ;"),
-    ('comments', 'qdq', "@@comments :: ?\"{s}\"\nstart = 'a' 'a' $ ;"),
-    ('eol_comments', 'slashes', "@@eol_comments :: /{s}/\nstart = 'a' 'a' $ ;"),
-    ('param', 'sq', "start('{s}') = 'a' $ ;"), ('kwparam', 'sq', "start(k='{s}') = 'a' $ ;"),
+    ('token', 'raw', "start = r'{s}' $ ;", 'raw'), ('token', 'ml', "start = \'\'\'{s}\'\'\' $ ;", 'raw'),
+    ('token', 'mldq', 'start = """{s}""" $ ;', 'raw'), ('token', 'dq-esc', 'start = "{s}" $ ;', 'esc'),
+    ('pattern', 'qsq', "start = ?'{s}' $ ;", 'raw'), ('pattern', 'old', 'start = ?/{s}/? $ ;', 'raw'),
+    ('constant', 'bq3', "start = 'a' ```{s}``` $ ;", 'raw'), ('constant', 'bq-str', "start = 'a' `\"{s}\"` $ ;", 'esc'),
+    ('alert', 'bq', "start = 'a' ^`{s}` $ ;", 'raw'), ('alert', 'bq3', "start = 'a' ^^```{s}``` $ ;", 'raw'),
+    ('keyword', 'sq', "@@keyword :: '{s}'\nstart = n $ ;\n@name\nn = /[^\\s]+/ ;", 'raw'),
+    ('keyword', 'sq-esc', "@@keyword :: '{s}'\nstart = n $ ;\n@name\nn = /[^\\s]+/ ;", 'esc'),
+    ('keyword', 'word', "@@keyword :: {s}\nstart = n $ ;\n@name\nn = /[^\\s]+/ ;", 'raw'),
+    ('namechars', 'sq', "@@namechars :: '{s}'\nstart = 'a' /.*/ $ ;", 'raw'),
+    ('namechars', 'sq-esc', "@@namechars :: '{s}'\nstart = 'a' /.*/ $ ;", 'esc'),
+    ('whitespace', 'slashes', "@@whitespace :: /{s}/\nstart = 'a' 'a' $ ;", 'raw'),
+    ('whitespace', 'sq', "@@whitespace :: '{s}'\nstart = 'a' 'a' $ ;", 'raw'),
+    ('whitespace', 'sq-esc', "@@whitespace :: '{s}'\nstart = 'a' 'a' $ ;", 'esc'),
+    ('whitespace', 'qdq', "@@whitespace :: ?\"{s}\"\nstart = 'a' 'a' $ ;", 'raw'),
+    ('comments', 'slashes', "@@comments :: /{s}/\nstart = 'a' 'a' $ ;", 'raw'),
+    ('comments', 'qdq', "@@comments :: ?\"{s}\"\nstart = 'a' 'a' $ ;", 'raw'),
+    ('comments', 'qsq', "@@comments :: ?'{s}'\nstart = 'a' 'a' $ ;", 'raw'),
+    ('eol_comments', 'slashes', "@@eol_comments :: /{s}/\nstart = 'a' 'a' $ ;", 'raw'),
+    ('eol_comments', 'qsq', "@@eol_comments :: ?'{s}'\nstart = 'a' 'a' $ ;", 'raw'),
+    ('param', 'sq', "start('{s}') = 'a' $ ;", 'raw'), ('param', 'sq-esc', "start('{s}') = 'a' $ ;", 'esc'),
+    ('kwparam', 'sq', "start(k='{s}') = 'a' $ ;", 'raw'), ('kwparam', 'sq-esc', "start(k='{s}') = 'a' $ ;", 'esc'),
 ]
-JSON_KINDS_MAIN = ('token', 'pattern', 'constant')
-JSON_KINDS_MINOR = ('alert', 'keyword', 'namechars', 'whitespace', 'comments', 'eol_comments', 'param', 'kwparam')
-
-
-def atom_json(kind, t):
-    a = {'__class__': 'Token', 'token': 'a'}
-    seq_aa = {'__class__': 'Sequence', 'sequence': [a, dict(a)]}
-    if kind == 'token':
-        return _grammar_json(_tok_json(t))
-    if kind == 'pattern':
-        return _grammar_json({'__class__': 'Pattern', 'pattern': t})
-    if kind == 'constant':
-        return _grammar_json({'__class__': 'Sequence', 'sequence': [a, {'__class__': 'Constant', 'literal': t}]})
-    if kind == 'alert':
-        return _grammar_json({'__class__': 'Sequence', 'sequence': [a, {'__class__': 'Alert', 'literal': t, 'level': 2}]})
-    if kind == 'keyword':
-        return _grammar_json({'__class__': 'Call', 'name': 'n'}, keywords=[t], rules=[NAME_RULE])
-    if kind == 'namechars':
-        return _grammar_json({'__class__': 'Sequence', 'sequence': [a, {'__class__': 'Pattern', 'pattern': '.*'}]},
-                             directives={'namechars': t})
-    if kind in ('whitespace', 'comments', 'eol_comments'):
-        return _grammar_json(seq_aa, directives={kind: t})
-    if kind == 'param':
-        return _grammar_json(a, params=[t])
-    if kind == 'kwparam':
-        return _grammar_json(a, kwparams={'k': t})
-    raise ValueError(kind)
+WIDE_FORMS = [f for f in TEXT_FORMS_MAIN + TEXT_FORMS_MINOR if (f[0], f[1]) in
+              {('token', 'sq'), ('pattern', 'slashes'), ('constant', 'bq'), ('alert', 'bq'), ('param', 'sq'), ('kwparam', 'sq'), ('keyword', 'sq')}]
 
 
 def atom_cases(tier, seed):
     L = 4 if tier == 'thorough' else 3
     cases = []
-    main = list(strings(ALPHA, L))
-    minor = list(strings(ALPHA, L - 1))
-    for kind, form, fmt in TEXT_FORMS_MAIN:
-        for s in main:
-            cases.append(dict(group='atoms', kind=kind, ctx=form, via='text', text=fmt.replace('{s}', s), s=s, start=None))
-    for kind, form, fmt in TEXT_FORMS_MINOR:
-        for s in minor:
-            cases.append(dict(group='atoms', kind=kind, ctx=form, via='text', text=fmt.replace('{s}', s), s=s, start=None))
-    for kind in JSON_KINDS_MAIN:
-        for s in main:
-            cases.append(dict(group='atoms', kind=kind, ctx='json', via='json', json=atom_json(kind, s), s=s, start=None))
-    for kind in JSON_KINDS_MINOR:
-        for s in minor:
-            cases.append(dict(group='atoms', kind=kind, ctx='json', via='json', json=atom_json(kind, s), s=s, start=None))
-    for s in RAIL_EXTRA:
-        for kind in ('token', 'constant', 'pattern', 'param', 'kwparam'):
-            cases.append(dict(group='atoms', kind=kind, ctx='json-wide', via='json', json=atom_json(kind, s), s=s, start=None))
+    seen = set()
+
+    def add(kind, form, fmt, spelling, s, group='atoms'):
+        sp = esc(s) if spelling == 'esc' else s
+        text = fmt.replace('{s}', sp)
+        if text in seen:
+            return
+        seen.add(text)
+        cases.append(dict(group=group, kind=kind, ctx=form, via='text', text=text, s=s, start=None))
+
+    for kind, form, fmt, spelling in TEXT_FORMS_MAIN:
+        for s in strings(ALPHA, L):
+            add(kind, form, fmt, spelling, s)
+    for kind, form, fmt, spelling in TEXT_FORMS_MINOR:
+        for s in strings(ALPHA, L - 1):
+            add(kind, form, fmt, spelling, s)
+    for kind, form, fmt, spelling in WIDE_FORMS:
+        for s in RAIL_EXTRA:
+            add(kind, form + '-wide', fmt, spelling, s)
     return cases
 
 
@@ -700,26 +683,81 @@ def witness_of(case, inp=None):
     return w
 
 
-SPECIALS = {"'": 'squote', '"': 'dquote', '\\': 'backslash', '/': 'slash', '`': 'backquote', '\n': 'newline', '{': 'brace', '}': 'brace'}
+SEVERITY = ('pretty', 'recompile', 'parse', 'meta', 'fixpoint')
 
 
-def classify(case, cls, detail):
-    """finding class slug: the check that failed + what the case exercises (node kind / atom kind and the
-    characters involved).  Kept coarse on purpose: one slug per root cause candidates, refined by hand
-    (see ROOT below) for the causes diagnosed on the pinned tree."""
-    g = case['group']
-    kind = case['kind']
-    if g == 'atoms':
-        s = case.get('s', '')
-        if cls.startswith('rail-'):
-            return f'{cls}/{kind}'
-        chars = sorted({SPECIALS[c] for c in s if c in SPECIALS})
-        return f'{cls}/{kind}-text/{case["via"]}/' + ('+'.join(chars) or 'plain')
-    if g in ('structure', 'structure2'):
-        if cls.startswith('rail-'):
-            return f'{cls}/{kind}'
-        return f'{cls}/{kind}'
-    return f'{cls}/{g}-{kind}'
+def both_quotes(x):
+    return isinstance(x, str) and "'" in x and '"' in x
+
+
+def features(m):
+    """what the model contains that the per-node printers treat specially -- used ONLY to name the finding
+    class (so that one cause gets one slug whatever case exposed it); never to decide pass/fail."""
+    from tatsu import peg as g
+    from tatsu.util import trim
+    f = set()
+
+    def walk(n, depth=0):
+        if depth > 200:
+            return
+        if isinstance(n, g.EOL):
+            f.add('eol')
+        elif isinstance(n, g.Constant):
+            lit = n.literal
+            if isinstance(lit, str):
+                if '`' in lit:
+                    f.add('constant-with-backquote')
+                if '\n' in lit:
+                    f.add('constant-with-newline')
+                if ('`' not in lit and '\n' not in lit) and (lit[:1] in ('"', "'") or not lit):
+                    f.add('constant-quoted-or-empty')
+        elif isinstance(n, g.Token):
+            if both_quotes(n.token):
+                f.add('string-with-both-quotes')
+        elif isinstance(n, g.Pattern):
+            pat = n.pattern or ''
+            if not pat:
+                f.add('pattern-empty')
+            elif trim(pat) != pat:
+                f.add('pattern-trimmed')
+            elif '\n' in pat:
+                f.add('pattern-multiline')
+            if '/' in pat and '"' in pat:
+                f.add('pattern-with-slash-and-dquote')
+        for c in n.children():
+            walk(c, depth + 1)
+
+    for r in m.rules:
+        if isinstance(r, g.BasedRule) and (r.params or r.kwparams):
+            f.add('based-rule-with-params')
+        for d in r.decorators or ():
+            if d in ('nomemo', 'nostak'):
+                f.add(f'decorator-{d}')
+        if any(both_quotes(x) for x in list(r.params or ()) + list((r.kwparams or {}).values())):
+            f.add('string-with-both-quotes')
+        walk(r)
+    d = m.directives or {}
+    if 'whitespace' in d and not d['whitespace']:
+        f.add('whitespace-off')
+    for k in ('whitespace', 'comments', 'eol_comments'):
+        v = d.get(k)
+        if isinstance(v, str) and '/' in v and ('"' in v or '\n' in v):
+            f.add('directive-regex-with-slash-and-dquote')
+    if both_quotes(d.get('namechars')) or any(both_quotes(k) for k in m.keywords or ()):
+        f.add('string-with-both-quotes')
+    return f
+
+
+def classify(case, check, feats):
+    """finding class slug = what the model contains (features) or, without any, what the case exercises;
+    then the check that failed."""
+    what = '+'.join(sorted(feats)) if feats else (case['kind'] if case['group'].startswith('structure') else f'{case["group"]}-{case["kind"]}')
+    return f'{what}/{check}'
+
+
+def severity(cls):
+    head = cls.split('-')[0]
+    return SEVERITY.index(head) if head in SEVERITY else len(SEVERITY)
 
 
 def run_case(case):
@@ -738,7 +776,7 @@ def run_case(case):
             res['why'] = 'pattern matches the empty string / not a regex (outside the domain: D29)'
             return res
     variants = [(None, m)]
-    if case['group'] != 'atoms' or case['via'] == 'text' and case['kind'] in ('token', 'pattern', 'constant') and len(case.get('s', '')) <= 2:
+    if case['group'] != 'atoms' or len(case.get('s', '')) <= 2:
         # the same model loaded from its own JSON, and its optimized() form: models "however obtained"
         try:
             from tatsu.peg import Grammar
@@ -780,10 +818,18 @@ def run_case(case):
         if facts.get('hang'):
             res['hang'] = True
         keys.append(p)
-        for cls, detail, inp in fails:
-            if vname and any(f[0].split('/')[0] == cls and not f[2].get('then') for f in res['fails']):
-                continue  # same failure already reported for the plain model
-            res['fails'].append((classify(c, cls, detail), detail, witness_of(c, inp)))
+        try:
+            feats = features(vm)
+        except Exception:  # noqa: BLE001
+            feats = set()
+        rail = [f for f in fails if f[0].startswith('rail-')]
+        other = sorted((f for f in fails if not f[0].startswith('rail-')), key=lambda f: severity(f[0]))
+        # one report per (case, variant): the most severe check that failed, plus the railroad checks
+        for cls, detail, inp in other[:1] + rail:
+            slug = f'railroads/{cls}' if cls.startswith('rail-') else classify(c, cls, feats)
+            if vname and any(f[0] == slug for f in res['fails']):
+                continue  # same finding already reported for the plain model
+            res['fails'].append((slug, detail, witness_of(c, inp)))
     res['key'] = keys[0] if keys else None
     if res['fails']:
         res['status'] = 'fail'
@@ -819,8 +865,11 @@ GROUP_DOC = {
     'antlr': ('models built by the ANTLR translator', f'{len(ANTLR_CASES)} ANTLR grammars through tatsu.g2e.translate'),
     'files': ('grammars shipped with the project', 'tatsu/_tatsu.ebnf, grammar/calc.ebnf, g2e/antlr.tatsu, grammar/*.json'),
     'atoms': ('token / pattern / constant / alert / keyword / directive / parameter texts',
-              'texts = all strings over {a,\',",\\,/,`,newline,{,}}: spelled raw inside every quoting form of the grammar syntax '
-              '(text route, skipped when the original does not compile) and put directly into the model (JSON route)'),
+              'texts = all strings over {a,\',",\\,/,`,newline,{,}} spelled raw, and spelled with escapes, inside every quoting form '
+              'of the grammar syntax (\'..\' ".." r\'..\' \'\'\'..\'\'\' /../ ?".." ?\'..\' ?/../? `..` ```..``` ^`..` @@keyword '
+              '@@namechars @@whitespace @@comments @@eol_comments rule params/kwparams); only models the original compile accepts; '
+              'plus 7 wide / combining / drawing-glyph texts for the railroad widths; inputs: the text itself, doubled, '
+              'with every alphabet character before / after it, every alphabet character, pairs'),
 }
 
 
@@ -855,7 +904,6 @@ def run(tier='quick', seed=0, info=None):
         for c, r in evaluated:
             for cls, detail, wit in r['fails']:
                 failures.append({'witness': wit, 'detail': detail, 'cls': cls})
-        failures = merge_classes(failures)
         samples = [witness_of(c) for c, r in evaluated[:3]]
         bound = {'quick': 'texts <= 3 (main quoting forms) / <= 2 (other forms)', 'thorough': 'texts <= 4 / <= 3'}[tier] \
             if group == 'atoms' else f'{len(rows)} grammars'
@@ -871,21 +919,6 @@ def run(tier='quick', seed=0, info=None):
             info.setdefault('bounded', []).append({k: it.extra.get(k) for k in ('function', 'domain', 'bound', 'cases')})
     run.last_wall = time.time() - t0
     return items
-
-
-# root causes diagnosed on the pinned tree: detail regex -> slug (so that one cause is one class whatever
-# node kind / context happened to expose it).  Anything not matched keeps its generic slug.
-ROOT = [
-]
-
-
-def merge_classes(failures):
-    for f in failures:
-        for rx, slug in ROOT:
-            if re.search(rx, f['cls'] + ' :: ' + f['detail'], re.S):
-                f['cls'] = slug
-                break
-    return failures
 
 
 def main(argv=None):
